@@ -254,6 +254,11 @@ Definition ballot_valid_suf (sf : signfact) (ex : list expel) (s : suffrage) : b
   suf_exists_pub (sf_node sf) (sf_pub sf) s &&
   forallb (fun e => expel_valid (sp_h (f_sp (sf_fact sf))) e s) ex.
 
+(* the part of voterecords.vote that records the embedded voteproof and the expels of the ballot of node n *)
+Definition recorded (n : Z) (b : ballot) (r : rec) : rec :=
+  let r1 := match b_vp b with Some v => set_vps (aset n v (r_vps r)) r | None => r end in
+  match b_ex b with [] => r1 | ex => set_ex (aset n ex (r_ex r1)) r1 end.
+
 (* voterecords.vote; [suf] = vr.getSuffrage() (None: not found).  Returns (record, voted, validated). *)
 Definition rec_vote (suf : option suffrage) (last : option lastpoint) (b : ballot) (r : rec) : rec * bool * bool :=
   match r_sp r with
@@ -264,15 +269,12 @@ Definition rec_vote (suf : option suffrage) (last : option lastpoint) (b : ballo
       else if is_some (r_vp r) then (r, false, false)
       else if is_voted n r then (r, false, false)
       else
-        let record (r : rec) :=
-          let r1 := match b_vp b with Some v => set_vps (aset n v (r_vps r)) r | None => r end in
-          match b_ex b with [] => r1 | ex => set_ex (aset n ex (r_ex r1)) r1 end in
         match suf with
         | Some s =>
             if negb (ballot_valid_suf (b_sf b) (b_ex b) s) then (r, false, false)
-            else let r2 := record r in (set_voted (aset n (b_sf b) (r_voted r2)) r2, true, true)
+            else let r2 := recorded n b r in (set_voted (aset n (b_sf b) (r_voted r2)) r2, true, true)
         | None =>
-            let r2 := record r in (set_ballots (aset n (b_sf b) (r_ballots r2)) r2, true, false)
+            let r2 := recorded n b r in (set_ballots (aset n (b_sf b) (r_ballots r2)) r2, true, false)
         end
   end.
 
